@@ -130,3 +130,10 @@ REG["C13"] = {
     "level_note": _NOTE + " File-system events are observed with sys.addaudithook and a wrapped open(); paths outside the run's scratch directory are ignored.",
     "engine": "tlc+trace",
 }
+
+REG["C18"] = {
+    "technique": "TLC model checking of HeaderTools.tla (ordered pattern-table classification, species list, two-column min/max layout with parity padding; ListedOnce, RowPerField) + replay: menu's printed tables tokenised and compared with an independent parse of the headers, minuterie's time, marinate pickle round trip against a fresh reader and the generated data",
+    "level_text": ("Every duplicate-free field list of <=4 (thorough 5) names over known, multi-field-class, species and unknown names x 4 menu modes is model-checked and replayed on 2-D/3-D plotfiles with 1..3 levels, "
+                   "negative / huge / infinite times and infinite extrema; extrema strings are compared exactly with python's '{:.3}' of the independently parsed tables."),
+    "level_note": _NOTE,
+}
